@@ -12,6 +12,7 @@ import (
 	"encoding/binary"
 	"runtime"
 	"strconv"
+	"time"
 
 	"github.com/named-data/ndnd/fw/core"
 	"github.com/named-data/ndnd/fw/defn"
@@ -458,6 +459,17 @@ func (t *Thread) processIncomingData(packet *defn.Pkt) {
 	// Get strategy for name
 	strategyName := table.FibStrategyTable.FindStrategyEnc(data.NameV)
 	strategy := t.strategies[strategyName.Hash()]
+
+	// An in-record whose Interest lifetime has elapsed is no longer pending,
+	// even if the entry is kept alive by a longer-lived in-record.
+	now := time.Now()
+	for _, pitEntry := range pitEntries {
+		for face, record := range pitEntry.InRecords() {
+			if !record.ExpirationTime.After(now) {
+				delete(pitEntry.InRecords(), face)
+			}
+		}
+	}
 
 	if len(pitEntries) == 1 {
 		// When a single PIT entry matches, we pass the data to the strategy.
